@@ -148,4 +148,21 @@ ReadSchedule(prologue, rPriv, rPub, e, encS, sPlain, encP) ==
   IN [k1 |-> hs1.sym.k, n1 |-> NonceBytes(hs1.sym.n), ad1 |-> hs1.sym.h,
       k2 |-> hs2.sym.k, n2 |-> NonceBytes(hs2.sym.n), ad2 |-> hs2.sym.h,
       hh |-> MixHash(hs2.sym, encP).h]
+
+(***************************************************************************)
+(* What ANYBODY can compute when the recipient key forces every shared     *)
+(* secret to zero (a low-order point): the same schedule with ZeroDH in    *)
+(* place of both DH results and no private key at all.  The real code      *)
+(* refuses to write to such a key; if a tree does write, this schedule     *)
+(* opens its files and shows that their handshake keys are constants (C07, *)
+(* C05).                                                                   *)
+(***************************************************************************)
+ReadScheduleNull(prologue, rPub, e, encS, encP) ==
+  LET s0 == MixHash(MixHash(MixHash(InitSym, prologue), rPub), e)
+      s1 == MixKey(s0, ZeroDH)
+      s2 == [MixHash(s1, encS) EXCEPT !.n = s1.n + 1]
+      s3 == MixKey(s2, ZeroDH)
+  IN [k1 |-> s1.k, n1 |-> NonceBytes(s1.n), ad1 |-> s1.h,
+      k2 |-> s3.k, n2 |-> NonceBytes(s3.n), ad2 |-> s3.h,
+      hh |-> MixHash(s3, encP).h]
 =============================================================================
